@@ -16,11 +16,15 @@ import random
 
 from simkit.driver import Check, base_result
 from ref import codec as C
-from checks.worlda import (WorldA, draw_clock_jumps, schedule_clock_jumps, bystander_for, bystander_cost, draw_knobs, draw_sched, NODE_HOST, NODE_REALM,
+from checks.worlda import (WorldA, draw_stalls, install_func_stalls, draw_clock_jumps, schedule_clock_jumps, bystander_for, bystander_cost, draw_knobs, draw_sched, NODE_HOST, NODE_REALM,
                            PEER_HOST, PEER_REALM)
 
 TAG = 99999
 APP_ID = 16777251
+HANDOVER_FUNCS = ["DiameterAssociation.get_message", "DiameterAssociation.get_postprocess_recv_message",
+                  "DiameterAssociation.get_postprocess_recv_message", "State.notify_postprocess_message",
+                  "State.get_message", "DiameterAssociation.recv_message_from_queue", "TcpConnection.read",
+                  "TcpConnection.pop_recv_data_stream", "Open.run"]
 
 
 def build_msg(spec, idx):
@@ -169,10 +173,24 @@ class C04(Check):
                        "pos2": rng.getrandbits(30) if rng.random() < 0.5 else None,
                        "gap": rng.choice([0.0005, 0.01, 0.3]), "at": 0.0}]
         mode = rng.choice(["CLIENT", "SERVER"])
+        pairs = (index % 8 == 3)
+        if pairs:
+            # hand-over sweep: P pairs of messages, the pairs 5 s apart (longer than any polling interval of the
+            # node), the second message of a pair 50 ms behind the first.  A thread entering one of the hand-over
+            # functions after the first message of pair p has arrived is descheduled j_p steps after entry for
+            # 0.2 s, so that the second message goes through the other threads exactly then.  Every message must
+            # reach the parked consumer within D_local of its arrival (see the oracle), not only by the end.
+            P = rng.choice([4, 6, 8])
+            msgs = [{"kind": rng.choice(["app_req", "app_ans"]), "pad": rng.choice([0, 0, 17]), "dhost": False,
+                     "code": rng.choice([316, 318])} for _ in range(2 * P)]
+            bursts = []
+            for p_ in range(P):
+                bursts.append({"msgs": [2 * p_], "style": "whole", "ncuts": 1, "cutseed": 0, "gap": 0.0, "at": 5.0 * p_})
+                bursts.append({"msgs": [2 * p_ + 1], "style": "whole", "ncuts": 1, "cutseed": 0, "gap": 0.0, "at": 5.0 * p_ + 0.05})
         if big:
             bursts = [{"msgs": list(range(n)), "style": rng.choice(["whole", "boundaries", "random"]), "ncuts": 3,
                        "cutseed": rng.getrandbits(30), "gap": 0.0, "at": 0.0}]
-        return self._later_additions(rng, index, sweep or big, {"mode": mode, "msgs": msgs, "bursts": bursts, "max_steps": 6_000_000 + 30000 * n,
+        return self._later_additions(rng, index, sweep or big or pairs, {"mode": mode, "pairs": pairs, "msgs": msgs, "bursts": bursts, "max_steps": 6_000_000 + 30000 * n,
                 "bystander": bystander_for(index),
                 "consumer_early": rng.random() < 0.5,
                 # the peer ends the connection with a DPR right behind its last message: everything it sent
@@ -215,9 +233,42 @@ class C04(Check):
                         later = max(later, 3 * b["long_gap"])
                         o["at"] += 3 * b["long_gap"]
                 scn["knobs"]["STATE_MACHINE_TICKER"] = max(scn["knobs"]["STATE_MACHINE_TICKER"], 0.002)
+        # stalled-thread faults on the inbound path: a library thread (or the consumer) is descheduled for a while
+        # at a step of its own, or j steps after entering -- for the k-th time, k up to the number of messages --
+        # one of the functions that hand bytes / messages from one thread to the next
+        rng3 = random.Random(rng2.getrandbits(48))
+        # the application rewrites the messages it has been given (they are its own from delivery on)
+        scn["scribble"] = rng3.random() < 0.3
+        scn["stalls"] = []
+        scn["func_stalls"] = []
+        if scn.get("pairs"):
+            scn["bystander"] = None
+            scn["consumer_early"] = True
+            scn["end_with_dpr"] = False
+            scn["clock_jumps"] = []
+            scn["knobs"]["STATE_MACHINE_TICKER"] = rng3.choice([0.002, 0.005, 0.01, 0.02])
+            scn["sched"]["quantum"] = min(scn["sched"].get("quantum", 2e-6), 2e-6)
+            scn["net"]["max_latency"] = min(scn["net"]["max_latency"], 0.003)
+            scn["horizon"] = 200.0
+            for p_ in range(len(scn["msgs"]) // 2):
+                scn["func_stalls"].append({"func": rng3.choice(HANDOVER_FUNCS[:5]), "call": None, "after": 5.0 * p_ + 0.0001,
+                                           "line": rng3.randrange(0, 48), "dur": 0.2})
+        if not special and rng3.random() < 0.5:
+            scn["stalls"] = draw_stalls(rng3, threads=("psm_thread", "transport_layer_thread", "recv_message_monitor", "consumer"),
+                                        span=2000)
+            napp = max(1, sum(1 for m_ in scn["msgs"] if m_["kind"].startswith("app")))
+            for _ in range(rng3.choice([1, 2, 3, 4])):
+                scn["func_stalls"].append({
+                    "func": rng3.choice(HANDOVER_FUNCS), "call": rng3.randrange(1, napp + 3),
+                    "line": rng3.randrange(0, 14), "dur": rng3.choice([0.002, 0.02, 0.1, 0.4])})
         return scn
 
     def shrink(self, scn):
+        for k_ in ("stalls", "func_stalls"):
+            for i in range(len(scn.get(k_) or ())):
+                c = copy.deepcopy(scn)
+                del c[k_][i]
+                yield c
         n = len(scn["msgs"])
         # drop a message (re-index bursts)
         for i in range(n):
@@ -322,9 +373,37 @@ class C04(Check):
         # liveness bound: polling intervals plus the simulated CPU time the node
         # needs to parse and tick through n messages (every step costs a quantum)
         D = 3.0 + 4 * n * tick + w.world.knobs["TRACKING_SOCKET_EVENTS_TIMEOUT"] + n * 40000 * sim.quantum + \
-            bystander_cost(scn, sim.quantum)
+            bystander_cost(scn, sim.quantum) + \
+            sum(x["dur"] for x in (scn.get("stalls") or [])) + sum(x["dur"] for x in (scn.get("func_stalls") or []))
         stats = {"split_msgs": 0, "coalesced": 0, "segments": 0, "delivered": 0, "opened": False}
         expected = [msg_key_ref(m) for m, s in zip(refs, scn["msgs"]) if s["kind"].startswith("app")]
+
+        delivered_keys = []
+
+        def on_delivered(m):
+            # what was delivered is recorded at the moment of delivery: the message belongs to the application from
+            # here on, and in some runs the application rewrites it (a relay rewrites Destination-Host / -Realm and
+            # the identifiers before forwarding; here every AVP and the identifiers are overwritten)
+            try:
+                delivered_keys.append(msg_key_lib(m))
+            except BaseException as e:      # noqa
+                delivered_keys.append(("undecodable", repr(e)))
+            if scn.get("scribble"):
+                stats["scribbled"] = stats.get("scribbled", 0) + 1
+                for a in list(m.avps):
+                    try:
+                        d = a.data
+                        if isinstance(d, (bytes, bytearray)) and len(d):
+                            a.data = bytes((x ^ 0x55) for x in d)
+                    except BaseException as e:      # noqa  (typed setters may refuse: not our business)
+                        if type(e).__name__ in ("SimStop", "SimHang"):
+                            raise
+                try:
+                    m.header.hop_by_hop = b"\x00\x00\x00\x00"
+                    m.header.end_to_end = b"\xff\xff\xff\xff"
+                except BaseException as e:      # noqa
+                    if type(e).__name__ in ("SimStop", "SimHang"):
+                        raise
 
         def main(sim):
             if scn.get("consumer_early") and scn["mode"] == "CLIENT":
@@ -336,7 +415,11 @@ class C04(Check):
                 return
             stats["opened"] = True
             if scn.get("consumer_early"):
-                w.start_consumer()
+                w.start_consumer(on_msg=on_delivered)
+            sim.func_calls.clear()
+            t_first = sim.now + 0.01        # = t0 of the bursts below
+            install_func_stalls(sim, [dict(fs, t0=t_first) for fs in (scn.get("func_stalls") or ())])
+            stats["stalls_planned"] = w.apply_stalls(scn.get("stalls")) + len(scn.get("func_stalls") or ())
             # outbound traffic from an application thread (must not disturb inbound)
             if scn.get("outbound"):
                 from bromelia.base import DiameterRequest
@@ -350,7 +433,7 @@ class C04(Check):
                         w.node.send_message(req)
                         sim.sleep(0.003)
                 w.call("submitter", submit)
-            t0 = sim.now + 0.01
+            t0 = max(sim.now + 0.001, t_first)
             last_send = [t0]
             schedule_clock_jumps(sim, scn.get("clock_jumps"))
             for b in scn["bursts"]:
@@ -388,12 +471,12 @@ class C04(Check):
                 sim.at(when, go)
             if scn.get("end_with_dpr"):
                 if not scn.get("consumer_early"):
-                    w.start_consumer()
+                    w.start_consumer(on_msg=on_delivered)
                 w.peer.b["answer_dpr"] = True
                 sim.at(last_send[0] + 1e-6, lambda: w.peer.send(C.dpr(PEER_HOST, PEER_REALM, hbh=0x7001, e2e=0x7002)))
             elif not scn.get("consumer_early"):
                 sim.sleep(min(0.05, max(0.0, last_send[0] - sim.now)))
-                w.start_consumer()
+                w.start_consumer(on_msg=on_delivered)
             # wait until everything sent has been delivered to the socket buffer
             sim.wait_until(lambda: False, max(0.0, last_send[0] - sim.now), poll=0.05)
             sim.wait_until(lambda: w.peer.sock is not None and w.peer.sock.inflight == 0, 5.0)
@@ -428,13 +511,40 @@ class C04(Check):
             # cannot judge C04 without an open connection; C06 judges opening
             return base_result(sim, [], summary=dict(stats, note="node did not open"),
                                extra={"split_msgs": 0, "coalesced": 0, "faults": {}})
-        got = []
-        for m in w.delivered:
-            try:
-                got.append(msg_key_lib(m))
-            except BaseException as e:      # noqa
-                got.append(("undecodable", repr(e)))
+        got = list(delivered_keys)
         stats["delivered"] = len(got)
+        if scn.get("pairs"):
+            # per-message liveness (pairs mode only: the pairs are 5 s apart, nothing else is going on): every
+            # message reaches the parked consumer within D_local of the moment the peer sent it -- a message that
+            # sits next to a sleeping consumer until other traffic wakes it up was not delivered in any useful sense
+            kn = w.world.knobs
+            d_local = 1.0 + kn["TRACKING_SOCKET_EVENTS_TIMEOUT"] + 30 * tick + 2 * 40000 * sim.quantum + 0.2 + 0.2 + \
+                4 * w.net.cfg.max_latency
+            sent_at = {}
+            for ev in w.hist.of("peer_tx"):
+                m_ = ev.get("msg")
+                if isinstance(m_, dict) and "hbh" in m_:
+                    sent_at.setdefault(m_["hbh"], ev["t"])
+            rx_at = {}
+            for ev in w.hist.of("app_rx"):
+                if ev.get("raw"):
+                    try:
+                        rx_at.setdefault(C.dec_msg(ev["raw"])["hbh"], ev["t"])
+                    except Exception:
+                        pass
+            worst = None
+            for hb_, ts_ in sent_at.items():
+                if hb_ in rx_at and rx_at[hb_] - ts_ > d_local:
+                    if worst is None or rx_at[hb_] - ts_ > worst[1]:
+                        worst = (hb_, rx_at[hb_] - ts_)
+            stats["max_latency"] = max([rx_at[h] - sent_at[h] for h in rx_at if h in sent_at] + [0.0])
+            if worst is not None:
+                violations.append({
+                    "clause": "application receives every message (a parked consumer is handed a message that has arrived "
+                              "within D of its arrival, not when other traffic happens to wake it)",
+                    "sig": "C04/stuck-until-later-traffic/pairs",
+                    "detail": {"hbh": "%08x" % worst[0], "latency": worst[1], "D_local": d_local,
+                               "func_stalls": scn.get("func_stalls")}})
         trig = "split" if stats["split_msgs"] else ("coalesced" if stats["coalesced"] else "whole")
         first_bad = None
         for i in range(max(len(got), len(expected))):
@@ -483,6 +593,7 @@ class C04(Check):
                                   "faults": {"message_split_across_segments": stats["split_msgs"],
                                              "segments_with_coalesced_messages": stats["coalesced"],
                                              "segments": stats["segments"],
+                                             "thread_stall": sim.stalls_fired,
                                              "preemption_in_bromelia_code": sim.preempt_line + sim.preempt_opcode},
                                   "abstract_states": sorted(w.abstract_states)})
 
